@@ -27,12 +27,13 @@ type step struct {
 }
 
 type cfg struct {
-	name     string
-	sizes    []int
-	threads  [][]step
-	workers  int
-	ticks    int
-	pre, flt int
+	name       string
+	sizes      []int
+	threads    [][]step
+	workers    int
+	ticks      int
+	pre, flt   int
+	modeSwitch bool
 }
 
 type result struct {
@@ -42,8 +43,11 @@ type result struct {
 	Unreadable        []int
 	Faults            int
 	Finished          bool
+	PutErrs           []string
 	Reads             int
 }
+
+var freeBound = 1
 
 func scenario(c cfg) sched.Scenario {
 	body := func(s *sched.S) any {
@@ -70,6 +74,14 @@ func scenario(c cfg) sched.Scenario {
 		objs := make([][]byte, len(c.sizes))
 		for i, n := range c.sizes {
 			objs[i] = ss.Obj(i, n).Marshal()
+		}
+		putDone := map[int]bool{}
+		blobWrites := 0
+		allPutsDone := func() bool { return len(putDone) == len(c.sizes) }
+		w.OnStep = func(l string) {
+			if l == "blob.Put" || l == "blob.PutBatch" {
+				blobWrites++
+			}
 		}
 		read := func(i int, viaBytes bool) {
 			// the observation window is fixed BEFORE the call: acknowledged and delete not yet invoked
@@ -102,15 +114,23 @@ func scenario(c cfg) sched.Scenario {
 					case "put":
 						if err := w.Sh.Put(ss.Obj(i, c.sizes[i]), nil); err == nil {
 							res.Acked[i] = true
+						} else {
+							res.PutErrs = append(res.PutErrs, err.Error())
 						}
+						putDone[i] = true
 					case "get":
 						read(i, false)
 					case "getbytes":
 						read(i, true)
+					case "wait-blob-write":
+						s.Block("wait blob write", func() bool { return blobWrites > 0 || allPutsDone() && false })
 					case "wait":
-						s.Block("wait ack", func() bool { return res.Acked[i] })
+						s.Block("wait put", func() bool { return putDone[i] })
 					case "delete":
-						s.Block("wait ack", func() bool { return res.Acked[i] })
+						s.Block("wait put", func() bool { return putDone[i] })
+						if !res.Acked[i] {
+							continue
+						}
 						res.DelStarted[i] = true
 						w.Sh.Delete(ss.Cnr, []oid.ID{ss.OID(i)})
 					case "flush":
@@ -146,6 +166,9 @@ func scenario(c cfg) sched.Scenario {
 		if x.Horizon || res == nil {
 			return "", ""
 		}
+		if len(res.PutErrs) > 0 && res.Faults == 0 && !c.modeSwitch {
+			return "harness:put-failed-without-fault", strings.Join(res.PutErrs, ";")
+		}
 		if x.Deadlock || !res.Finished {
 			return "deadlock", strings.Join(x.Blocked, ";")
 		}
@@ -167,13 +190,16 @@ func scenario(c cfg) sched.Scenario {
 		}
 		return fmt.Sprintf("faults=%d reads=%d deleted=%d", res.Faults, res.Reads, len(res.DelStarted))
 	}
-	return sched.Scenario{Name: c.name, Opt: sched.Options{PreemptBound: c.pre, FaultBound: c.flt, MaxSteps: 8000,
+	return sched.Scenario{Name: c.name, Opt: sched.Options{PreemptBound: c.pre, FaultBound: c.flt, FreeBound: freeBound, MaxSteps: 8000,
 		Setup: func(s *sched.S) { s.TimerFires = c.ticks }}, Body: body, Check: check, Outcome: outcome}
 }
 
 func main() {
 	r := ev.Start("C16", ev.ModelChecking)
 	S, B := 4, 60
+	if r.Thorough() {
+		freeBound = 2
+	}
 	q := r.Quick()
 	b := func(quick, thorough int) int {
 		if q {
@@ -186,11 +212,12 @@ func main() {
 	gb := func(i int) step { return step{"getbytes", i} }
 	wt := func(i int) step { return step{"wait", i} }
 	cfgs := []cfg{
-		{"put small, reader reads twice during background flush", []int{S}, [][]step{{p(0)}, {wt(0), g(0), gb(0)}}, 1, 4, b(1, 2), b(1, 1)},
-		{"put small + big, reader of the big one, blobstor may fail", []int{S, B}, [][]step{{p(0), p(1)}, {wt(1), gb(1), g(1)}}, 1, 4, b(1, 2), b(1, 2)},
-		{"put, explicit flush, reader", []int{S}, [][]step{{p(0), {"flush", 0}}, {wt(0), gb(0), g(0)}}, 1, 3, b(1, 2), b(1, 1)},
-		{"put, mode switch ro->rw, reader", []int{S}, [][]step{{p(0), {"setmode-ro-rw", 0}}, {wt(0), gb(0), g(0)}}, 1, 3, b(1, 2), 0},
-		{"put two, delete one, reader of the other", []int{S, S + 1}, [][]step{{p(0), p(1)}, {{"delete", 0}}, {wt(1), gb(1)}}, 1, 4, b(1, 2), b(0, 1)},
+		{"put small, reader reads twice during background flush", []int{S}, [][]step{{p(0)}, {wt(0), g(0), gb(0)}}, 1, 4, b(1, 2), b(1, 1), false},
+		{"put small + big, reader of the big one, blobstor may fail", []int{S, B}, [][]step{{p(0), p(1)}, {wt(1), gb(1), g(1)}}, 1, 4, b(1, 2), b(1, 2), false},
+		{"put small + big, reader starts when a blobstor write begins", []int{S, B}, [][]step{{p(0), p(1)}, {wt(1), {"wait-blob-write", 0}, gb(1), g(0)}}, 1, 4, b(1, 2), b(0, 1), false},
+		{"put, explicit flush, reader", []int{S}, [][]step{{p(0), {"flush", 0}}, {wt(0), gb(0), g(0)}}, 1, 3, b(1, 2), b(1, 1), false},
+		{"put, mode switch ro->rw, reader", []int{S}, [][]step{{p(0), {"setmode-ro-rw", 0}}, {wt(0), gb(0), g(0)}}, 1, 3, b(1, 2), 0, true},
+		{"put two, delete one, reader of the other", []int{S, S + 1}, [][]step{{p(0), p(1)}, {{"delete", 0}}, {wt(1), gb(1)}}, 1, 4, b(1, 2), b(0, 1), false},
 	}
 	var scs []sched.Scenario
 	for _, c := range cfgs {
